@@ -80,10 +80,10 @@ func pow(b, e int) int {
 func genHistory(t *rapid.T, withNames, withTableOps bool) history {
 	h := history{Cfg: histCfg{LAN: rapid.IntRange(0, 2).Draw(t, "lan"), Timing: rapid.IntRange(0, 2).Draw(t, "timing"), Quiet: rapid.SampledFrom([]int{0, 0, 1, 2}).Draw(t, "quiet"), Full: rapid.IntRange(0, 3).Draw(t, "full") == 0}}
 	n := rapid.IntRange(5, 60).Draw(t, "nops")
-	clientish := []int{mC1, mC1, mC2, mC2, mC3, mC4, mRouter}
-	anyMAC := []int{mC1, mC1, mC1, mC2, mC2, mC3, mC4, mC5, mRouter, mOwn, mMcast}
+	clientish := []int{mC1, mC1, mC2, mC2, mC3, mC4, mC6, mRouter}
+	anyMAC := []int{mC1, mC1, mC1, mC2, mC2, mC3, mC4, mC5, mC6, mC6, mC7, mRouter, mOwn, mMcast}
 	ip4s := []int{i4A, i4A, i4B, i4B, i4C, i4Host, i4Router, i4Off, i4Zero, i4Bcast}
-	names := []string{"", "n1", "n2", "a-much-longer-host-name"}
+	names := []string{"", "n1", "n2", "a-much-longer-host-name", "n1.", "N1", "printer.example.com."} // incl. a trailing dot and a case twin: other names, byte for byte
 	for i := 0; i < n; i++ {
 		kinds := []string{"f4", "f4", "f4", "f6", "f6", "arp", "dhcp", "adv", "adv", "purge", "purge"}
 		if withNames {
@@ -108,7 +108,7 @@ func genHistory(t *rapid.T, withNames, withTableOps bool) history {
 			op.Src = rapid.SampledFrom(clientish).Draw(t, "src")
 			op.IP = i4Zero
 			if rapid.IntRange(0, 4).Draw(t, "renew") == 0 {
-				op.IP = rapid.SampledFrom([]int{i4A, i4B, i4C}).Draw(t, "srcip") // renew / rebind: the frame has a source address
+				op.IP = rapid.SampledFrom([]int{i4A, i4B, i4C, i4Off}).Draw(t, "srcip") // renew / rebind: the frame has a source address (i4Off: a roaming client still using an address of another network)
 			}
 			op.New = rapid.SampledFrom([]int{i4A, i4B, i4C, i4C, i4Off, i4Zero, i4Router}).Draw(t, "new")
 			op.Name = rapid.SampledFrom(names).Draw(t, "name")
